@@ -138,7 +138,14 @@ class Layout:
             return 'struct nv_opaque', 'unmodelled-handle'
         return 'struct nv_opaque', 'cell'
 
+    def ref_fields(self):
+        """names of the reference data members (pointer fields of the C model)"""
+        self.text()
+        return {m['field'] for ms in self.meta.values() for m in ms if (m['type'] or '').rstrip().endswith('&')}
+
     def text(self):
+        if getattr(self, '_text', None) is not None:
+            return self._text
         out = []
         info = {}
         for c in self.classes:
@@ -162,13 +169,19 @@ class Layout:
             out.append(f'{c["cname"]}\n{{\n' + '\n'.join(lines) + '\n};')
             info[c['cls']] = meta
         self.meta = info
-        return '\n'.join(out) + '\n', {'struct_layouts_read_from_class_definitions': info}
+        self._text = ('\n'.join(out) + '\n', {'struct_layouts_read_from_class_definitions': info})
+        return self._text
 
 
 # ----------------------------------------------------------------------------------------------------- write accounting
 class FrameTrack:
-    def __init__(self, touch='nv_touch', lvalue_hooks=()):
+    def __init__(self, touch='nv_touch', lvalue_hooks=(), rows_fields=(), effect_hooks=()):
         self.touch = touch
+        self.effect_hooks = list(effect_hooks)   # expression hooks of the spec that print a WRITE (rows_slice_hook): never erased
+        # data members modelled row-wise (`struct nv_rows`: the footprint of ONE ghost row): `m.slice(range)` on them is
+        # printed by rows_slice_hook as a write of the ghost row iff it lies in the range; any other possibly-mutating
+        # mention writes the ghost row unconditionally
+        self.rows_fields = set(rows_fields)
         self.active = set()
         self.lvalue_hooks = list(lvalue_hooks)   # expression hooks of the spec that print a call as an lvalue of an erased object
         self.accessor_rx = r'^\(\*nv_\w+_at\('
@@ -300,9 +313,15 @@ class FrameTrack:
             if ctx == 'mutable' and self.const_view(n) and not self.assigned_to(n, parents):
                 ctx = 'const'
             if ctx == 'dropconst' or (ctx == 'mutable' and not self.declared_const(n)):
-                a = P.addr(n)
-                if a not in out:
-                    out.append(a)
+                if n.get('kind') == 'MemberExpr' and n.get('name') in self.rows_fields:
+                    if not self.sliced(n, parents):
+                        a = f'nv_rows_touch_all({P.addr(n)})'
+                        if a not in out:
+                            out.append(a)
+                else:
+                    a = f'{self.touch}({P.addr(n)})'
+                    if a not in out:
+                        out.append(a)
             if n.get('kind') in CALL_KINDS:
                 for c in n.get('inner', [])[1:]:
                     self.collect(P, c, parents + [n], out)
@@ -317,12 +336,29 @@ class FrameTrack:
         mutating mentions of erased objects inside it are charged by the statement hook like everywhere else"""
         P.check_pure(n, f'argument not translated by the mapping of {key}')
         for x in astload.walk(n):
+            if any(h(P, x) is not None for h in self.effect_hooks):
+                raise Unsupported(f'a write the spec models (hook) sits inside an expression that is erased / not translated ({key})')
             if x.get('kind') in CALL_KINDS and not self.accessor(P, x) and self.effectful(self.mapping_of(P, x)):
                 raise Unsupported(f'a call the spec maps ({cxx2c.unwrap(x["inner"][0]).get("referencedDecl", {}).get("name") or x["inner"][0].get("name")}) '
                                   f'sits inside an argument that the mapping of {key} does not translate')
 
-    def touches(self, addrs, p):
-        return ''.join(f'{p}{self.touch}({a});\n' for a in addrs)
+    def sliced(self, n, parents):
+        """the mention is the object of `<member>.slice(..)` (printed by rows_slice_hook)"""
+        ps = [p for p in parents if p.get('kind') not in TRANSPARENT and p.get('kind') != 'ParenExpr']
+        return len(ps) >= 2 and ps[-1].get('kind') == 'MemberExpr' and ps[-1].get('name') == 'slice' and ps[-2].get('kind') == 'CXXMemberCallExpr'
+
+    def touches(self, stmts, p):
+        return ''.join(f'{p}{a};\n' for a in stmts)
+
+    # -- expression hook: a copy / move construction or temporary of an erased value is the value (so that a mapped call or a
+    #    modelled write underneath it is printed instead of being erased together with the copy)
+    def expr_hook(self, P, n):
+        if n.get('kind') in ('CXXConstructExpr', 'CXXTemporaryObjectExpr') and self.is_cell(P, n.get('type')) and len(n.get('inner', [])) == 1:
+            c = n['inner'][0]
+            if self.is_cell(P, c.get('type')) and strip_cv(qual(c['type'])).rstrip('&').strip() == strip_cv(qual(n['type'])) \
+                    and unwrap(c).get('kind') not in ('DeclRefExpr', 'MemberExpr'):      # (a copy of a named object only reads it)
+                return P.expr(c)
+        return None
 
     # -- the statement hook
     def stmt_hook(self, P, n, ind):
@@ -387,6 +423,17 @@ class FrameTrack:
                     continue
             if w:
                 P.note('frame: possibly-mutating mention of an erased object -> write of its footprint')
+            if v.get('kind') == 'VarDecl' and init and not ty.endswith('&'):
+                try:
+                    c = P.ctype(v['type'])
+                except Unsupported:
+                    c = None
+                if c == 'struct nv_opaque':
+                    # an erased variable: the engine drops its initialiser; here it is printed, so that mapped calls and
+                    # modelled writes inside it take place (erased parts print as nv_opaque_value())
+                    e = P.expr(init[0])
+                    out += self.touches(w, p) + f'{p}struct nv_opaque {v["name"]} = {e};\n' + P.after(p)
+                    continue
             out += self.touches(w, p) + P.vardecl(v, p)
         return out
 
@@ -412,8 +459,51 @@ def frame_context_patch(track):
     return track
 
 
-def make_track(lvalue_hooks=()):
-    return frame_context_patch(FrameTrack(lvalue_hooks=lvalue_hooks))
+def make_track(lvalue_hooks=(), rows_fields=(), effect_hooks=()):
+    return frame_context_patch(FrameTrack(lvalue_hooks=lvalue_hooks, rows_fields=rows_fields, effect_hooks=effect_hooks))
+
+
+def rows_slice_hook(rows_fields):
+    """`m_values.slice(range)` / `.slice(begin, end)` on a row-wise modelled, non-const data member of `this`:
+    nv_rows_slice(&self->m_values, begin, end) -- writes the ghost row iff begin <= nv_g < end, yields an (erased) view"""
+    def h(P, n):
+        if n.get('kind') != 'CXXMemberCallExpr':
+            return None
+        me = n['inner'][0]
+        if me.get('kind') != 'MemberExpr' or me.get('name') != 'slice':
+            return None
+        obj = me['inner'][0]
+        u = unwrap(obj)
+        if u.get('kind') != 'MemberExpr' or u.get('name') not in rows_fields:
+            return None
+        if _is_const_q(obj.get('type', {}).get('qualType', '')) or _is_const_q(u.get('type', {}).get('qualType', '')):
+            return None         # const access: a read (erased by the engine)
+        args = n['inner'][1:]
+        if len(args) == 1:
+            r = P.expr(args[0])
+            P.note('rows: <member>.slice(range) -> ghost-row write')
+            return f'nv_rows_slice({P.addr(u)}, ({r}).m_begin, ({r}).m_end)'
+        if len(args) == 2:
+            P.note('rows: <member>.slice(begin, end) -> ghost-row write')
+            return f'nv_rows_slice({P.addr(u)}, {P.expr(args[0])}, {P.expr(args[1])})'
+        raise Unsupported('slice with %d arguments on a row-wise modelled member' % len(args))
+    return h
+
+
+def ref_member_hook(ref_fields):
+    """a reference data member (`const loss_t& m_loss;`) is a pointer field of the C model: a use denotes the object"""
+    def h(P, n):
+        if n.get('kind') != 'MemberExpr' or n.get('type', {}).get('qualType') == '<bound member function type>':
+            return None
+        if n.get('name') not in (ref_fields() if callable(ref_fields) else ref_fields):
+            return None
+        inner = n.get('inner', [])
+        base = P.expr(inner[0])
+        if n.get('isArrow'):
+            return f'(*{base}->{n["name"]})'
+        m = re.fullmatch(r'\(\*([A-Za-z_]\w*)\)', base)
+        return f'(*{m.group(1)}->{n["name"]})' if m else f'(*{base}.{n["name"]})'
+    return h
 
 
 # ----------------------------------------------------------------------------------------------------- small hooks
